@@ -149,6 +149,36 @@ def r3(R):
                         'layer only (`%s`): a write based on a stale '
                         'revision of an object that lives in the other layer '
                         'is not detected' % ast.unparse(op.ast)[:60])
+    # ... and on EVERY path that hands the record to the changes storage
+    # (also for a store that claims to create the object: only the lookup
+    # notices that the id exists in the base)
+    look_nodes = {id(op.node) for op in lookups}
+
+    def edge(node, st, lab, tgt):
+        # the lookup counts also when it raises: "not there" is an answer
+        if id(node) in look_nodes:
+            return True
+        return st
+
+    def at(node, st):
+        for op in F.ops(node):
+            if op.kind == 'call' and path_is(
+                    op.path, ('self', 'changes', 'store')) and not st:
+                return Violation(
+                    'DemoStorage.store hands the record to the changes '
+                    'storage on a path that has not looked up the current '
+                    'revision in the two layers: the changes storage knows '
+                    'nothing of the base -- a store that claims to CREATE '
+                    'an object under an id that exists only in the base is '
+                    'accepted and shadows the base object, where a single '
+                    'database answers with ConflictError')
+        return st
+
+    vs, stats = explore(g, False, at=at, edge=edge)
+    R.count(stats)
+    for v in vs[:1]:
+        R.violation(v.node, v.message, g, v.path,
+                    key='store delegated without the merged lookup')
 
 
 def _consults_changes_capability(ds, e, depth=0):
